@@ -23,6 +23,11 @@ func DerivePublic(priv []byte) (x, y []byte, err error) {
 		return
 	}
 
+	// priv = 0 (mod n) has no public point: the encoding of the point at infinity is a single byte
+	if pub.IsInfinity() {
+		return nil, nil, errors.New("private key is a multiple of the group order")
+	}
+
 	var pubBytes []byte
 	pubBytes = pub.Bytes_Unsafe()
 
